@@ -47,6 +47,24 @@ extern int mpt_parse_format_sep(const MPT_STRUCT(parser_format) *fmt, MPT_STRUCT
 			if (mpt_path_addchar(path, curr) < 0) {
 				return MPT_ERROR(BadOperation);
 			}
+			/* assignment without name: option with zero length name */
+			if (!fmt->ostart && fmt->assign && curr == fmt->assign) {
+				parse->curr = MPT_PARSEFLAG(Option) | MPT_PARSEFLAG(Name);
+				if (mpt_parse_ncheck(path->base + path->off + path->len, 0, parse->name.opt) < 0) {
+					return MPT_ERROR(BadType);
+				}
+				if (mpt_path_add(path, 0) < 0) {
+					return MPT_ERROR(BadOperation);
+				}
+				/* clear trailing path data */
+				mpt_path_invalidate(path);
+				parse->valid = 0;
+				
+				if ((curr = mpt_parse_data(fmt, parse, path)) < 0) {
+					return curr;
+				}
+				return curr ? (MPT_PARSEFLAG(Option) | MPT_PARSEFLAG(Data)) : MPT_PARSEFLAG(Option);
+			}
 			parse->valid = mpt_path_valid(path);
 		}
 		return mpt_parse_option(fmt, parse, path);
